@@ -1,27 +1,254 @@
 //go:build vsched
 
-// Package atomic is the verification shim for "sync/atomic".
+// Package atomic is the verification shim for "sync/atomic". It covers the whole API of the
+// real package. Under the controlled scheduler exactly one managed goroutine runs at a time, so
+// every operation is "a scheduling point at sync granularity, then the real operation"; outside
+// a controlled execution the scheduling point is a no-op and only the real operation remains.
 package atomic
 
 import (
 	realatomic "sync/atomic"
+	"unsafe"
 
 	"golang.org/x/mod/verifsched"
 )
 
-func LoadUint32(addr *uint32) uint32 {
-	if !verifsched.Active() {
-		return realatomic.LoadUint32(addr)
-	}
-	verifsched.SyncPoint("atomic.LoadUint32")
-	return *addr
+func pt(label string) { verifsched.SyncPoint(label) }
+
+// ---- functions
+
+func AddInt32(addr *int32, delta int32) int32 {
+	pt("atomic.AddInt32")
+	return realatomic.AddInt32(addr, delta)
+}
+func AddInt64(addr *int64, delta int64) int64 {
+	pt("atomic.AddInt64")
+	return realatomic.AddInt64(addr, delta)
+}
+func AddUint32(addr *uint32, delta uint32) uint32 {
+	pt("atomic.AddUint32")
+	return realatomic.AddUint32(addr, delta)
+}
+func AddUint64(addr *uint64, delta uint64) uint64 {
+	pt("atomic.AddUint64")
+	return realatomic.AddUint64(addr, delta)
+}
+func AddUintptr(addr *uintptr, d uintptr) uintptr {
+	pt("atomic.AddUintptr")
+	return realatomic.AddUintptr(addr, d)
+}
+func AndInt32(addr *int32, mask int32) int32 {
+	pt("atomic.AndInt32")
+	return realatomic.AndInt32(addr, mask)
+}
+func AndInt64(addr *int64, mask int64) int64 {
+	pt("atomic.AndInt64")
+	return realatomic.AndInt64(addr, mask)
+}
+func AndUint32(addr *uint32, mask uint32) uint32 {
+	pt("atomic.AndUint32")
+	return realatomic.AndUint32(addr, mask)
+}
+func AndUint64(addr *uint64, mask uint64) uint64 {
+	pt("atomic.AndUint64")
+	return realatomic.AndUint64(addr, mask)
+}
+func AndUintptr(addr *uintptr, m uintptr) uintptr {
+	pt("atomic.AndUintptr")
+	return realatomic.AndUintptr(addr, m)
+}
+func OrInt32(addr *int32, mask int32) int32 {
+	pt("atomic.OrInt32")
+	return realatomic.OrInt32(addr, mask)
+}
+func OrInt64(addr *int64, mask int64) int64 {
+	pt("atomic.OrInt64")
+	return realatomic.OrInt64(addr, mask)
+}
+func OrUint32(addr *uint32, mask uint32) uint32 {
+	pt("atomic.OrUint32")
+	return realatomic.OrUint32(addr, mask)
+}
+func OrUint64(addr *uint64, mask uint64) uint64 {
+	pt("atomic.OrUint64")
+	return realatomic.OrUint64(addr, mask)
+}
+func OrUintptr(addr *uintptr, m uintptr) uintptr {
+	pt("atomic.OrUintptr")
+	return realatomic.OrUintptr(addr, m)
+}
+func LoadInt32(addr *int32) int32    { pt("atomic.LoadInt32"); return realatomic.LoadInt32(addr) }
+func LoadInt64(addr *int64) int64    { pt("atomic.LoadInt64"); return realatomic.LoadInt64(addr) }
+func LoadUint32(addr *uint32) uint32 { pt("atomic.LoadUint32"); return realatomic.LoadUint32(addr) }
+func LoadUint64(addr *uint64) uint64 { pt("atomic.LoadUint64"); return realatomic.LoadUint64(addr) }
+func LoadUintptr(addr *uintptr) uintptr {
+	pt("atomic.LoadUintptr")
+	return realatomic.LoadUintptr(addr)
+}
+func LoadPointer(addr *unsafe.Pointer) unsafe.Pointer {
+	pt("atomic.LoadPointer")
+	return realatomic.LoadPointer(addr)
+}
+func StoreInt32(addr *int32, val int32) { pt("atomic.StoreInt32"); realatomic.StoreInt32(addr, val) }
+func StoreInt64(addr *int64, val int64) { pt("atomic.StoreInt64"); realatomic.StoreInt64(addr, val) }
+func StoreUint32(addr *uint32, val uint32) {
+	pt("atomic.StoreUint32")
+	realatomic.StoreUint32(addr, val)
+}
+func StoreUint64(addr *uint64, val uint64) {
+	pt("atomic.StoreUint64")
+	realatomic.StoreUint64(addr, val)
+}
+func StoreUintptr(addr *uintptr, val uintptr) {
+	pt("atomic.StoreUintptr")
+	realatomic.StoreUintptr(addr, val)
+}
+func StorePointer(addr *unsafe.Pointer, val unsafe.Pointer) {
+	pt("atomic.StorePointer")
+	realatomic.StorePointer(addr, val)
+}
+func SwapInt32(addr *int32, new int32) int32 {
+	pt("atomic.SwapInt32")
+	return realatomic.SwapInt32(addr, new)
+}
+func SwapInt64(addr *int64, new int64) int64 {
+	pt("atomic.SwapInt64")
+	return realatomic.SwapInt64(addr, new)
+}
+func SwapUint32(addr *uint32, new uint32) uint32 {
+	pt("atomic.SwapUint32")
+	return realatomic.SwapUint32(addr, new)
+}
+func SwapUint64(addr *uint64, new uint64) uint64 {
+	pt("atomic.SwapUint64")
+	return realatomic.SwapUint64(addr, new)
+}
+func SwapUintptr(addr *uintptr, n uintptr) uintptr {
+	pt("atomic.SwapUintptr")
+	return realatomic.SwapUintptr(addr, n)
+}
+func SwapPointer(addr *unsafe.Pointer, new unsafe.Pointer) unsafe.Pointer {
+	pt("atomic.SwapPointer")
+	return realatomic.SwapPointer(addr, new)
+}
+func CompareAndSwapInt32(addr *int32, old, new int32) bool {
+	pt("atomic.CompareAndSwapInt32")
+	return realatomic.CompareAndSwapInt32(addr, old, new)
+}
+func CompareAndSwapInt64(addr *int64, old, new int64) bool {
+	pt("atomic.CompareAndSwapInt64")
+	return realatomic.CompareAndSwapInt64(addr, old, new)
+}
+func CompareAndSwapUint32(addr *uint32, old, new uint32) bool {
+	pt("atomic.CompareAndSwapUint32")
+	return realatomic.CompareAndSwapUint32(addr, old, new)
+}
+func CompareAndSwapUint64(addr *uint64, old, new uint64) bool {
+	pt("atomic.CompareAndSwapUint64")
+	return realatomic.CompareAndSwapUint64(addr, old, new)
+}
+func CompareAndSwapUintptr(addr *uintptr, old, new uintptr) bool {
+	pt("atomic.CompareAndSwapUintptr")
+	return realatomic.CompareAndSwapUintptr(addr, old, new)
+}
+func CompareAndSwapPointer(addr *unsafe.Pointer, old, new unsafe.Pointer) bool {
+	pt("atomic.CompareAndSwapPointer")
+	return realatomic.CompareAndSwapPointer(addr, old, new)
 }
 
-func StoreUint32(addr *uint32, val uint32) {
-	if !verifsched.Active() {
-		realatomic.StoreUint32(addr, val)
-		return
-	}
-	verifsched.SyncPoint("atomic.StoreUint32")
-	*addr = val
+// ---- types
+
+type Bool struct{ v realatomic.Bool }
+
+func (x *Bool) Load() bool         { pt("atomic.Bool.Load"); return x.v.Load() }
+func (x *Bool) Store(val bool)     { pt("atomic.Bool.Store"); x.v.Store(val) }
+func (x *Bool) Swap(new bool) bool { pt("atomic.Bool.Swap"); return x.v.Swap(new) }
+func (x *Bool) CompareAndSwap(old, new bool) bool {
+	pt("atomic.Bool.CompareAndSwap")
+	return x.v.CompareAndSwap(old, new)
+}
+
+type Int32 struct{ v realatomic.Int32 }
+
+func (x *Int32) Load() int32          { pt("atomic.Int32.Load"); return x.v.Load() }
+func (x *Int32) Store(val int32)      { pt("atomic.Int32.Store"); x.v.Store(val) }
+func (x *Int32) Swap(new int32) int32 { pt("atomic.Int32.Swap"); return x.v.Swap(new) }
+func (x *Int32) CompareAndSwap(old, new int32) bool {
+	pt("atomic.Int32.CompareAndSwap")
+	return x.v.CompareAndSwap(old, new)
+}
+func (x *Int32) Add(delta int32) int32 { pt("atomic.Int32.Add"); return x.v.Add(delta) }
+func (x *Int32) And(mask int32) int32  { pt("atomic.Int32.And"); return x.v.And(mask) }
+func (x *Int32) Or(mask int32) int32   { pt("atomic.Int32.Or"); return x.v.Or(mask) }
+
+type Int64 struct{ v realatomic.Int64 }
+
+func (x *Int64) Load() int64          { pt("atomic.Int64.Load"); return x.v.Load() }
+func (x *Int64) Store(val int64)      { pt("atomic.Int64.Store"); x.v.Store(val) }
+func (x *Int64) Swap(new int64) int64 { pt("atomic.Int64.Swap"); return x.v.Swap(new) }
+func (x *Int64) CompareAndSwap(old, new int64) bool {
+	pt("atomic.Int64.CompareAndSwap")
+	return x.v.CompareAndSwap(old, new)
+}
+func (x *Int64) Add(delta int64) int64 { pt("atomic.Int64.Add"); return x.v.Add(delta) }
+func (x *Int64) And(mask int64) int64  { pt("atomic.Int64.And"); return x.v.And(mask) }
+func (x *Int64) Or(mask int64) int64   { pt("atomic.Int64.Or"); return x.v.Or(mask) }
+
+type Uint32 struct{ v realatomic.Uint32 }
+
+func (x *Uint32) Load() uint32           { pt("atomic.Uint32.Load"); return x.v.Load() }
+func (x *Uint32) Store(val uint32)       { pt("atomic.Uint32.Store"); x.v.Store(val) }
+func (x *Uint32) Swap(new uint32) uint32 { pt("atomic.Uint32.Swap"); return x.v.Swap(new) }
+func (x *Uint32) CompareAndSwap(old, new uint32) bool {
+	pt("atomic.Uint32.CompareAndSwap")
+	return x.v.CompareAndSwap(old, new)
+}
+func (x *Uint32) Add(delta uint32) uint32 { pt("atomic.Uint32.Add"); return x.v.Add(delta) }
+func (x *Uint32) And(mask uint32) uint32  { pt("atomic.Uint32.And"); return x.v.And(mask) }
+func (x *Uint32) Or(mask uint32) uint32   { pt("atomic.Uint32.Or"); return x.v.Or(mask) }
+
+type Uint64 struct{ v realatomic.Uint64 }
+
+func (x *Uint64) Load() uint64           { pt("atomic.Uint64.Load"); return x.v.Load() }
+func (x *Uint64) Store(val uint64)       { pt("atomic.Uint64.Store"); x.v.Store(val) }
+func (x *Uint64) Swap(new uint64) uint64 { pt("atomic.Uint64.Swap"); return x.v.Swap(new) }
+func (x *Uint64) CompareAndSwap(old, new uint64) bool {
+	pt("atomic.Uint64.CompareAndSwap")
+	return x.v.CompareAndSwap(old, new)
+}
+func (x *Uint64) Add(delta uint64) uint64 { pt("atomic.Uint64.Add"); return x.v.Add(delta) }
+func (x *Uint64) And(mask uint64) uint64  { pt("atomic.Uint64.And"); return x.v.And(mask) }
+func (x *Uint64) Or(mask uint64) uint64   { pt("atomic.Uint64.Or"); return x.v.Or(mask) }
+
+type Uintptr struct{ v realatomic.Uintptr }
+
+func (x *Uintptr) Load() uintptr            { pt("atomic.Uintptr.Load"); return x.v.Load() }
+func (x *Uintptr) Store(val uintptr)        { pt("atomic.Uintptr.Store"); x.v.Store(val) }
+func (x *Uintptr) Swap(new uintptr) uintptr { pt("atomic.Uintptr.Swap"); return x.v.Swap(new) }
+func (x *Uintptr) CompareAndSwap(old, new uintptr) bool {
+	pt("atomic.Uintptr.CompareAndSwap")
+	return x.v.CompareAndSwap(old, new)
+}
+func (x *Uintptr) Add(delta uintptr) uintptr { pt("atomic.Uintptr.Add"); return x.v.Add(delta) }
+func (x *Uintptr) And(mask uintptr) uintptr  { pt("atomic.Uintptr.And"); return x.v.And(mask) }
+func (x *Uintptr) Or(mask uintptr) uintptr   { pt("atomic.Uintptr.Or"); return x.v.Or(mask) }
+
+type Pointer[T any] struct{ v realatomic.Pointer[T] }
+
+func (x *Pointer[T]) Load() *T       { pt("atomic.Pointer.Load"); return x.v.Load() }
+func (x *Pointer[T]) Store(val *T)   { pt("atomic.Pointer.Store"); x.v.Store(val) }
+func (x *Pointer[T]) Swap(new *T) *T { pt("atomic.Pointer.Swap"); return x.v.Swap(new) }
+func (x *Pointer[T]) CompareAndSwap(old, new *T) bool {
+	pt("atomic.Pointer.CompareAndSwap")
+	return x.v.CompareAndSwap(old, new)
+}
+
+type Value struct{ v realatomic.Value }
+
+func (x *Value) Load() any        { pt("atomic.Value.Load"); return x.v.Load() }
+func (x *Value) Store(val any)    { pt("atomic.Value.Store"); x.v.Store(val) }
+func (x *Value) Swap(new any) any { pt("atomic.Value.Swap"); return x.v.Swap(new) }
+func (x *Value) CompareAndSwap(old, new any) bool {
+	pt("atomic.Value.CompareAndSwap")
+	return x.v.CompareAndSwap(old, new)
 }
